@@ -12,12 +12,16 @@ HOSTS = ["plain", "instr", "queued", "queued_off"]
 
 def configs():
   out = []
-  for deco in (False, True, "other"):
+  for deco in (False, True, "other", "mixed_even", "mixed_odd"):
     for host in HOSTS:
+      if str(deco).startswith("mixed") and host == "queued_off":
+        continue
       if host.startswith("queued"):
         for ls, lt in itertools.product((False, True), repeat=2):
           for drive in ("dispatch", "post"):
             for poll in (False, True):
+              if poll and str(deco).startswith("mixed"):
+                continue      # what the logs of a partly decorated chart contain is nobody's claim
               out.append({"deco": deco, "host": host, "live_spy": ls, "live_trace": lt,
                           "drive": drive, "poll": poll})
           # all events queued first, then ONE complete_circuit runs them
@@ -125,7 +129,8 @@ def transcript(case, cfg):
 
 
 def cfg_name(c):
-  return "%s/%s%s%s/%s%s" % ({False: "bare", True: "decorated", "other": "other-decorator"}[c["deco"]],
+  return "%s/%s%s%s/%s%s" % ({False: "bare", True: "decorated", "other": "other-decorator",
+                              "mixed_even": "even-states-decorated", "mixed_odd": "odd-states-decorated"}[c["deco"]],
                              c["host"], "+live_spy" if c["live_spy"] else "",
                              "+live_trace" if c["live_trace"] else "", c["drive"],
                              ("+polled" if c["poll"] else "") + ("+anonymous" if c.get("anonymous") else ""))
@@ -133,10 +138,10 @@ def cfg_name(c):
 
 class C18(Prop):
   id = "C18"
-  quick_examples = 350
+  quick_examples = 300
   thorough_examples = 6000
   rule = ("Hypothesis-generated chart x start state x event list, each executed under %d "
-          "configurations: {no decorator, the spy decorator, some other functools.wraps decorator} x "
+          "configurations: {no decorator, the spy decorator on every state, on the even-numbered or on the odd-numbered states only, some other functools.wraps decorator} x "
           "{plain, instrumented, queued with instrumentation on/off} x {live spy} x {live trace} x "
           "{dispatch directly / post + complete_circuit per event / all events posted and run by one complete_circuit} x {read-only observers current_state(), "
           "spy(), trace(), spy_rtc() polled between steps or not} and {a started ActiveObject under the deterministic scheduler, with live output through its writer thread}. "
@@ -182,7 +187,8 @@ class C18(Prop):
       if t != base:
         k = next(i for i in range(max(len(t), len(base)))
                  if i >= len(t) or i >= len(base) or t[i] != base[i])
-        what = "start_at" if k == 0 else "event %d (%s)" % (k - 1, case["events"][k - 1])
+        what = "start_at" if k == 0 else "event %d (%s)" % (k - 1, case["events"][k - 1]) \
+            if k - 1 < len(case["events"]) else "after the last event"
         a = base[k] if k < len(base) else None
         b = t[k] if k < len(t) else None
         raise PropertyViolation(
